@@ -283,7 +283,7 @@ func (w *World) modelValue(o *Obligation, x string, t types.Type, st *State) (st
 		mem := c.heapGet(st, h, srt)
 		var terms []string
 		for i := int64(0); i < ln.Int64(); i++ {
-			terms = append(terms, fmt.Sprintf("(select (select %s (sl.base %s)) %s)", mem, x, c.iadd("(sl.off "+x+")", c.idxLit(i))))
+			terms = append(terms, fmt.Sprintf("(select (select %s (sl.base %s)) %s)", mem, x, c.eidx("(sl.off "+x+")", c.idxLit(i))))
 		}
 		vs, err = getValues(o, terms, 30)
 		if err != nil {
